@@ -52,6 +52,14 @@ def norm(m, width):
     return {(u(k, width) if isinstance(k, int) else k): v for k, v in m.items()}
 
 
+def _extra_bits(enc, extra):
+    """augmentation value -> (bit string, references): enc is a bit width (uint extras) or a callable returning bits or (bits, refs)"""
+    if not callable(enc):
+        return u(extra, enc), []
+    r = enc(extra)
+    return (r, []) if isinstance(r, str) else (r[0], list(r[1]))
+
+
 def encode(m, width, chooser=None, aug=None, prune=None, kinds_log=None, ret_extra=False):
     """root RC of Hashmap(width) for non-empty map m.  chooser(n, m, uniform) -> kind (default canonical).
     aug = (leaf_extra(value)->extra, combine(a,b)->extra, enc) for HashmapAug: enc is a bit width (uint extras) or a callable extra -> bit string.
@@ -72,20 +80,24 @@ def encode(m, width, chooser=None, aug=None, prune=None, kinds_log=None, ret_ext
         if len(keys) == 1:
             vb, vr = items[keys[0]]
             extra = None
+            xrefs = []
             if aug:
                 extra = aug[0](items[keys[0]])
-                bits += aug[2](extra) if callable(aug[2]) else u(extra, aug[2])
-            cell = rc.RC(bits + vb, vr)
+                xb, xrefs = _extra_bits(aug[2], extra)
+                bits += xb
+            cell = rc.RC(bits + vb, list(xrefs) + list(vr))      # ahmn_leaf extra:Y value:X - the extra's references come first
         else:
             left = {k[n + 1:]: v for k, v in items.items() if k[n] == '0'}
             right = {k[n + 1:]: v for k, v in items.items() if k[n] == '1'}
             lc, le = build(left, rest - 1, path + prefix + '0')
             rcell, re_ = build(right, rest - 1, path + prefix + '1')
             extra = None
+            xrefs = []
             if aug:
                 extra = aug[1](le, re_)
-                bits += aug[2](extra) if callable(aug[2]) else u(extra, aug[2])
-            cell = rc.RC(bits, [lc, rcell])
+                xb, xrefs = _extra_bits(aug[2], extra)
+                bits += xb
+            cell = rc.RC(bits, [lc, rcell] + list(xrefs))          # ahmn_fork left:^ right:^ extra:Y - the extra's references come last
         if prune and path and prune(path, cell):
             return rc.make_pruned(cell, 1), extra
         return cell, extra
